@@ -107,6 +107,43 @@ def readv_case(maxlen):
                 max_paths=300000, wall_s=1200)
 
 
+def second_request_case(maxlen):
+    """a second readv() on a file whose first prefetch()/readv() has (partly) been answered already"""
+    def fn(ctx):
+        import paramiko.sftp_file as SF
+        n = ctx.choice("len(file)", range(0, maxlen + 1))
+        content = ctx.bytes("content", n)
+        first = ctx.choice("first", ["prefetch()", "readv"])
+        link = S.Link({"/f": S.MemFile(content)}, ShortReads(ctx, False))
+        with ctx.patches(S.stack_patches()), _env(link, SF):
+            f = link.client.open("/f", "rb")
+            try:
+                if first == "prefetch()":
+                    f.prefetch()
+                    if ctx.flag("read-one-byte-in-between"):
+                        got = f.read(1)
+                        ctx.prove(P.beq(got, content[:1]), "read-after-prefetch-returns-the-file's-bytes-at-the-current-offset")
+                else:
+                    ch = ctx.choice("first.chunk", CHUNKS)
+                    got = list(f.readv([ch]))
+                    ctx.prove(len(got) == 1 and P.beq(got[0], content[ch[0]:ch[0] + ch[1]]),
+                              "each-block==the-file's-bytes-in-that-range-truncated-at-end-of-file")
+                ch2 = ctx.choice("second.chunk", CHUNKS)
+                got = list(f.readv([ch2]))
+            except S.WouldBlockForever:
+                ctx.prove(False, "the-reader-never-waits-for-a-response-that-was-never-requested")
+                f._closed = True
+                return
+            ctx.prove(len(got) == 1 and P.beq(got[0], content[ch2[0]:ch2[0] + ch2[1]]),
+                      "second-readv:each-block==the-file's-bytes-in-that-range-truncated-at-end-of-file")
+            f.close()
+        f._closed = True
+    return Case("readv-after-an-answered-prefetch-or-readv", fn,
+                ["second-readv:each-block==the-file's-bytes-in-that-range-truncated-at-end-of-file"],
+                {"file": "0..%d symbolic bytes" % maxlen, "chunks": CHUNKS, "first request": ["prefetch()", "readv of one chunk"]},
+                max_paths=300000, wall_s=1200)
+
+
 def cases(tier):
     k = 6 if tier == "quick" else 7
-    return [prefetch_case(k), readv_case(k)]
+    return [prefetch_case(k), readv_case(k), second_request_case(4 if tier == "quick" else 6)]
